@@ -305,6 +305,7 @@ class Walker:
         self.need = 0
         self.trace = []
         self.stack_id = None
+        self.imax = {}       # induction variable id -> greatest value inside the loop being walked
         for p in f.params:
             if p["n"] == "stack" and p.get("p"):
                 self.stack_id = p["id"]
@@ -501,6 +502,19 @@ class Walker:
             # loop bodies are walked once with their induction variables unknown
             if s.get("c"):
                 self.expr(s["c"])
+            # ... but an upper bound `i < E` / `i + k < E` on an induction variable bounds the indices it forms
+            bound = None
+            cc = strip(s["c"]) if s.get("c") else None
+            if cc is not None and cc.get("k") == "Bin" and cc["op"] in ("<", "<=", "!="):
+                lx = strip(cc["x"])
+                off = 0
+                if lx.get("k") == "Bin" and lx["op"] == "+" and int_val(lx["y"]) is not None:
+                    off, lx = int_val(lx["y"]), strip(lx["x"])
+                if lx.get("k") == "Ref" and not lx.get("p"):
+                    try:
+                        bound = (lx["id"], self.ival(cc["y"]) - off - (0 if cc["op"] == "<=" else 1))
+                    except Undecided:
+                        bound = None
             for n in walk(s):
                 if n.get("k") == "Un" and n["op"] in ("pre++", "pre--", "post++", "post--"):
                     l = strip(n["e"])
@@ -510,7 +524,11 @@ class Walker:
                     l = strip(n["x"])
                     if l.get("k") == "Ref":
                         self.ints.pop(l["id"], None)
+            if bound is not None:
+                self.imax[bound[0]] = bound[1]
             self.stmt(s["body"])
+            if bound is not None:
+                self.imax.pop(bound[0], None)
             if k == "For" and s.get("inc"):
                 self.expr(s["inc"])
         elif k == "Switch":
@@ -584,13 +602,45 @@ class Walker:
         r = ir.root_ref(e)
         return r is not None and r.get("id") in self.ptrs
 
-    def expr(self, e):
+    def touch(self, e):
+        """direct accesses p[i] through pointers into the scratch stack count like carving: offset + (i + 1) elements"""
+        for n in walk(e):
+            if n.get("k") != "Index":
+                continue
+            try:
+                pv = self.pval(n["b"])
+            except Undecided:
+                pv = None
+            if pv is None:
+                continue
+            saved = dict(self.ints)
+            try:
+                for vid, mx in self.imax.items():
+                    if vid not in self.ints:
+                        self.ints[vid] = mx
+                i = self.ival(n["i"])
+            except Undecided:
+                i = None
+            finally:
+                self.ints = saved
+            if i is None or i < 0:
+                continue
+            try:
+                es = self._esize(n["b"])
+            except Undecided:
+                es = None
+            if es:
+                self.need = max(self.need, pv + (i + 1) * es)
+
+    def expr(self, e, top=True):
         if not isinstance(e, dict):
             return
+        if top:
+            self.touch(e)
         k = e.get("k")
         if k == "Bin" and e["op"] == ",":
-            self.expr(e["x"])
-            self.expr(e["y"])
+            self.expr(e["x"], False)
+            self.expr(e["y"], False)
             return
         if k == "Bin" and e["op"] == "=":
             self.assign(e["x"], e["y"])
@@ -629,7 +679,7 @@ class Walker:
             self.call(e)
             return
         for c in ir.kids(e):
-            self.expr(c)
+            self.expr(c, False)
 
     def call(self, c):
         cn = c.get("callee")
@@ -642,6 +692,22 @@ class Walker:
             if i >= len(c["a"]):
                 return None
             return self.pval(c["a"][i])
+        if not cn and not c.get("indirect") and c.get("fn") is not None:
+            # call through a table of function pointers (_mul_procs[n](c, a, b, stack)): the entries are the targets
+            targets = self.table_targets(c["fn"])
+            if targets is None:
+                if any(self.pval(a) is not None for a in c["a"]):
+                    raise Undecided("call through `%s` receives scratch memory in %s and its target is unknown" % (
+                        show(c["fn"])[:30], self.f.name))
+                return
+            base = self.need
+            worst = base
+            for t_ in targets:
+                self.need = base
+                self.call(dict(c, callee=t_, fn=None))
+                worst = max(worst, self.need)
+            self.need = worst
+            return
         g = self.prog.resolve(cn, self.f.unit) if cn and not c.get("indirect") else None
         if c.get("indirect"):
             # call through a ring / curve descriptor: the scratch argument is the last one
@@ -715,6 +781,43 @@ class Walker:
         sub = self.ne.need(g, scal, atoms)
         self.need = max(self.need, so + sub)
         self.trace.append((c.get("l"), cn, so, sub, dict(scal)))
+
+    def table_targets(self, fn):
+        """names of the functions a call expression `table[i]` can reach: the entry selected by a known index, otherwise
+        every entry of the (constant, file-level) table; None when the expression is not such a table"""
+        fn = strip(fn)
+        if fn.get("k") == "Un" and fn["op"] == "*":
+            fn = strip(fn["e"])
+        if fn.get("k") != "Index":
+            return None
+        b = strip(fn["b"])
+        if b.get("k") != "Ref" or b.get("rk") not in ("global", "static_local"):
+            return None
+        cands = [g for g in self.prog.globals.get(b["n"], []) if g.get("init") is not None and
+                 (not g.get("static") or g.get("unit") == self.f.unit)]
+        if len(cands) != 1 or not cands[0].get("const"):
+            return None
+        init = strip(cands[0]["init"])
+        if init.get("k") != "InitList":
+            return None
+        names = []
+        for e in init["a"]:
+            e = strip(e)
+            if e.get("k") == "Un" and e["op"] == "&":
+                e = strip(e["e"])
+            if int_val(e) == 0:
+                names.append(None)          # empty slot
+                continue
+            if e.get("k") != "Ref" or not e.get("n"):
+                return None
+            names.append(e["n"])
+        try:
+            i = self.ival(fn["i"])
+        except Undecided:
+            i = None
+        if i is not None:
+            return [names[i]] if 0 <= i < len(names) and names[i] else None
+        return [x for x in names if x]
 
     def _maybe_int(self, a):
         try:
